@@ -63,6 +63,9 @@ func langTiers(c *Ctx) []langTier {
 func runLangCheck(c *Ctx) {
 	d := ref.Std()
 	idx := 0
+	if c.On("C01") {
+		structuralPhase(c, d, &idx)
+	}
 	for _, t := range langTiers(c) {
 		g := ref.NewSpecGen(t.leaves)
 		argvs := ref.Argvs(t.toks, t.maxLen)
@@ -77,6 +80,7 @@ func runLangCheck(c *Ctx) {
 				if !c.Begin("lang", t.name, spec) {
 					continue
 				}
+				c.Count("C01:traces", int64(len(argvs)))
 				node, err := ref.ParseSpec(d, spec)
 				if err != nil {
 					panic(fmt.Sprintf("generator produced %q: %v", spec, err))
@@ -163,6 +167,10 @@ func replayLang(c *Ctx, cs Case) {
 	node, err := ref.ParseSpec(d, spec)
 	if err != nil {
 		fmt.Println("bad spec in replay:", err)
+		return
+	}
+	if st, _ := cs["structural"].(bool); st {
+		structuralOne(c, d, spec)
 		return
 	}
 	b, _ := cs["builtin"].(bool)
